@@ -62,7 +62,8 @@ Definition show_res (orig : list Z) (base : Z) (r : pres) : string :=
   match r with
   | POk v p =>
       "ok(" ++ show_Z (p_start p) ++ "," ++ show_Z (end_offset p) ++ "," ++ show_bytes (p_str p) ++ ","
-            ++ show_dir (p_dir p) ++ "," ++ show_value v ++ "," ++ show_bool (inv_holds orig base p) ++ ")"
+            ++ show_dir (p_dir p) ++ "," ++ show_value v ++ "," ++ show_bool (inv_holds orig base p) ++ ","
+            ++ show_Z (err_offset (err_new p EOther)) ++ show_dir (e_dir (err_new p EOther)) ++ ")"
   | PErr e => "err(" ++ show_Z (err_offset e) ++ "," ++ show_dir (e_dir e) ++ "," ++ show_kind (e_kind e) ++ ")"
   | PPanic => "PANIC"
   end.
